@@ -417,8 +417,11 @@ func VF_C11_dup_getters() {
 	vfAssume(!vfReserved(g1) && !vfReserved(g2) && g1 != "Must" && g2 != "Must")
 	s1, s2 := vfValidService(), vfValidService()
 	s1.Getter, s2.Getter = &g1, &g2
+	todo := vfBool("todo")
+	s2.Todo = &todo
 	err := vfWhole(Input{Services: map[string]Service{"a": s1, "b": s2}})
-	vfAssert((err == nil) == (g1 != g2), "duplicate getters are rejected, distinct ones accepted")
+	// a todo service is exempt from attribute checks: its getter is never generated
+	vfAssert((err == nil) == (g1 != g2 || todo), "duplicate getters are rejected, distinct ones accepted; a todo service is exempt")
 	vfReach("C11_dup_getters")
 }
 
